@@ -61,45 +61,33 @@ var sortSets = [...]sortSet{
 }
 
 func ByContextualEx(fallbackSort NameSorter) NameSorter {
-	var set sortSet
-	fallback := false
+	// rank is a function of the key alone, so the order does not depend on
+	// which keys the sorter happened to be asked about first
+	rank := func(val string) (setIdx, pos int) {
+		val = strings.ToLower(val)
+		for i, set := range sortSets {
+			if p, ok := set[val]; ok {
+				return i + 1, p
+			}
+		}
+		return 0, 0
+	}
 
 	return func(a, b string) bool {
-		if !fallback && set == nil {
-			set = inferSortSetByValue(a)
-			if set == nil {
-				fallback = true
-			}
+		setA, posA := rank(a)
+		setB, posB := rank(b)
+		if setA != setB {
+			return setA < setB // keys outside any set first, then each set
+		}
+		if setA != 0 && posA != posB {
+			return posA < posB
 		}
 
-		// Try using the set
-		if !fallback {
-			lowerA := strings.ToLower(a)
-			lowerB := strings.ToLower(b)
-			v0, ok0 := set[lowerA]
-			v1, ok1 := set[lowerB]
-			if !ok0 || !ok1 {
-				fallback = true
-			} else {
-				return v0 < v1
-			}
-		}
-
-		// Fallback
+		// Same position (mon/Monday) or not in a set
 		return fallbackSort(a, b)
 	}
 }
 
 func ByContextual() NameSorter {
 	return ByContextualEx(ByNameSmart)
-}
-
-func inferSortSetByValue(val string) sortSet {
-	val = strings.ToLower(val)
-	for _, set := range sortSets {
-		if _, ok := set[val]; ok {
-			return set
-		}
-	}
-	return nil
 }
